@@ -162,6 +162,20 @@ func splits(n int) [][]int {
 	return out
 }
 
+// vary gives split k its own payload size (size+0/1/2) so that consecutive multi-segment envelopes
+// on one connection differ in total length, and the cut list adjusted to the longer envelope.
+func vary(size int, parts []int, k int) (int, []int) {
+	d := k % 3
+	out := append([]int{}, parts...)
+	for i := len(out) - 1; i >= 0 && d > 0; i-- {
+		if out[i]+d <= refseg.MaxPayload {
+			out[i] += d
+			return size + d, out
+		}
+	}
+	return size, out
+}
+
 // writeSplit writes env as non-self-contained segments cut according to parts.
 func writeSplit(e *vnet.End, env []byte, parts []int, lz4 bool) {
 	off := 0
@@ -229,8 +243,9 @@ func rawServerHarness(name string, lz4 bool, size int, maxSplits int, bound int)
 					return
 				}
 				tag, _ := tagOf(rs[0])
-				env := envelope(respFor(tag, rs[0].Header.StreamId, size))
-				writeSplit(se, env, sp[k], lz4)
+				sz, parts := vary(size, sp[k], k)
+				env := envelope(respFor(tag, rs[0].Header.StreamId, sz))
+				writeSplit(se, env, parts, lz4)
 			}
 			// finally: a request answered by two envelopes' worth of segment where the last is a bare header (VOID result has a 4-byte body; READY has none)
 			rs, err := readEnvelopes(se, lz4, 2)
@@ -265,8 +280,9 @@ func rawServerHarness(name string, lz4 bool, size int, maxSplits int, bound int)
 				o.Fail("C15:multi-envelope-misrouted", "readSelfContainedSegment", "request multi-%d received the response for %s", i, got)
 			}
 		}
-		want := gen.Payload(size, "text")
 		for k := range sp {
+			sz, _ := vary(size, sp[k], k)
+			want := gen.Payload(sz, "text")
 			tag := fmt.Sprintf("split-%03d", k)
 			r, err := cc.Send(query(tag, 5))
 			if err != nil {
@@ -353,9 +369,10 @@ func rawClientHarness(name string, lz4 bool, size int, maxSplits int, bound int)
 			}
 			_, _ = ce.Write(seg(payload, true, lz4))
 			for k := range sp {
-				q := query(fmt.Sprintf("split-%03d", k), size)
+				sz, parts := vary(size, sp[k], k)
+				q := query(fmt.Sprintf("split-%03d", k), sz)
 				q.Header.StreamId = 7
-				writeSplit(ce, envelope(q), sp[k], lz4)
+				writeSplit(ce, envelope(q), parts, lz4)
 			}
 		})
 		if err := sc.AcceptHandshake(); err != nil {
@@ -363,7 +380,6 @@ func rawClientHarness(name string, lz4 bool, size int, maxSplits int, bound int)
 			sched.Atomic(func() { _ = sc.Close() })
 			return
 		}
-		want := gen.Payload(size, "text")
 		for i := 0; i < 3; i++ {
 			f, err := sc.Receive()
 			if err != nil {
@@ -381,6 +397,8 @@ func rawClientHarness(name string, lz4 bool, size int, maxSplits int, bound int)
 				break
 			}
 			got, data := tagOf(f)
+			sz, _ := vary(size, sp[k], k)
+			want := gen.Payload(sz, "text")
 			if got != fmt.Sprintf("split-%03d", k) || !bytes.Equal(data, want) {
 				o.Fail("C15:split-envelope-corrupted", "CqlServerConnection.addMultiSegmentPayload", "parts %v: received %s with %d payload bytes", sp[k], got, len(data))
 			}
@@ -406,6 +424,6 @@ func rawPeerHarnesses() []*explore.Harness {
 		hs = append(hs, rawClientHarness("rawclient/"+n+"/150KiB", lz4, 150*1024, 0, 0))
 	}
 	hs = append(hs, rawServerHarness("rawserver/lz4/sched", true, 12, 2, 1))
-	hs = append(hs, rawClientHarness("rawclient/none/sched", false, 12, 2, 1))
+	hs = append(hs, rawClientHarness("rawclient/none/sched", false, 12, 2, 2))
 	return hs
 }
